@@ -513,6 +513,28 @@ func runR(f []string) (string, string) {
 	if len(f) != 7 {
 		return "BADCASE", ""
 	}
+	if f[2] == "st" || f[2] == "ct" { // standard TLS (r8.go)
+		tk := kvOf(f[4])["tk"] == "1"
+		sv, err := strconv.ParseUint(f[3], 16, 16)
+		chv, err2 := strconv.ParseUint(f[5], 16, 16)
+		if err != nil || err2 != nil {
+			return "BADCASE", ""
+		}
+		tsuite := uint16(sv)
+		if f[2] == "st" {
+			cfg := &gmtls.Config{Certificates: []gmtls.Certificate{E.rsa}, SessionTicketsDisabled: !tk}
+			cfg.Time = func() time.Time { return fixedNow }
+			return rPair(
+				func(conn net.Conn) *gmtls.Conn { return gmtls.Server(conn, cfg) },
+				func(conn net.Conn) string { return scriptedTLSClient(conn, tsuite, tk, uint16(chv), f[6]) })
+		}
+		cfg := &gmtls.Config{RootCAs: E.pool, ServerName: "localhost", MaxVersion: uint16(chv), CipherSuites: []uint16{tsuite},
+			SessionTicketsDisabled: true}
+		cfg.Time = func() time.Time { return fixedNow }
+		return rPair(
+			func(conn net.Conn) *gmtls.Conn { return gmtls.Client(conn, cfg) },
+			func(conn net.Conn) string { return scriptedTLSServer(conn, tsuite, uint16(chv), f[6]) })
+	}
 	sv, err := strconv.ParseUint(f[3], 16, 16)
 	if err != nil || (sv != 0xe013 && sv != 0xe053) {
 		return "BADCASE", ""
